@@ -49,6 +49,61 @@ static long long enc(double c, double unreachable)
     return (long long)c;
 }
 
+// ------------------------------------------------------------------ allocation budget
+// LPAstarOnGraph::computeShortestPath builds the path by following parent pointers until nullptr;
+// on a parent cycle it push_front()s forever.  To get out of that loop alive (the scenario and the
+// object stay usable) the global operator new counts down a budget while a real operation runs
+// and throws bad_alloc when it is used up: no structure over <= 12 vertices needs 200000
+// allocations in one call.  Anything that loops without allocating is left to the watchdog below.
+static long g_allocBudget = -1;  // < 0: unlimited
+static void *budgetedAlloc(std::size_t n)
+{
+    if (g_allocBudget >= 0 && g_allocBudget-- == 0)
+    {
+        g_allocBudget = -1;
+        throw std::bad_alloc();
+    }
+    void *p = malloc(n ? n : 1);
+    if (!p)
+        throw std::bad_alloc();
+    return p;
+}
+void *operator new(std::size_t n)
+{
+    return budgetedAlloc(n);
+}
+void *operator new[](std::size_t n)
+{
+    return budgetedAlloc(n);
+}
+void operator delete(void *p) noexcept
+{
+    free(p);
+}
+void operator delete[](void *p) noexcept
+{
+    free(p);
+}
+void operator delete(void *p, std::size_t) noexcept
+{
+    free(p);
+}
+void operator delete[](void *p, std::size_t) noexcept
+{
+    free(p);
+}
+struct AllocBudget
+{
+    explicit AllocBudget(long n)
+    {
+        g_allocBudget = n;
+    }
+    ~AllocBudget()
+    {
+        g_allocBudget = -1;
+    }
+};
+
 // ------------------------------------------------------------------ findings and watchdog
 struct Findings
 {
@@ -66,25 +121,41 @@ static std::string g_now;  // history being executed, for the watchdog
 static void onHang(int)
 {
     // an operation of a structure over <= 12 vertices used more than 3 s of CPU: endless loop
+    if (vt::Trace::current())
+    {
+        // the operation that does not return is not in the trace yet: name it, so that the trace
+        // specification stops here and the history can be re-executed
+        vt::Trace::current()->emit(json{{"e", "Hang"}, {"pending", g_now + "]"}});
+        vt::Trace::current()->flush();
+    }
     const char *p = "HANG ";
     (void)!write(1, p, 5);
     (void)!write(1, g_now.c_str(), g_now.size());
-    (void)!write(1, "\n", 1);
+    (void)!write(1, "]\n", 2);
     _exit(71);
 }
-static void arm(const json &hist)
+static void arm(int seconds)
 {
-    g_now = hist.dump();
     struct itimerval it;
     memset(&it, 0, sizeof it);
-    it.it_value.tv_sec = 3;
+    it.it_value.tv_sec = seconds;
     setitimer(ITIMER_VIRTUAL, &it, nullptr);
 }
 static void disarm()
 {
-    struct itimerval it;
-    memset(&it, 0, sizeof it);
-    setitimer(ITIMER_VIRTUAL, &it, nullptr);
+    arm(0);
+}
+// one scenario / history = one watchdog period; the operations are appended as they are issued
+static void beginHistory(int seconds)
+{
+    g_now = "[";
+    arm(seconds);
+}
+static void note(const json &op)
+{
+    if (g_now.size() > 1)
+        g_now += ",";
+    g_now += op.dump();
 }
 
 // ------------------------------------------------------------------ DynamicSSSP
@@ -240,7 +311,18 @@ struct LpaReal
         else if (e == "Compute")
         {
             std::list<std::size_t> path;
-            double c = lpa->computeShortestPath(path);
+            double c = -3;
+            try
+            {
+                AllocBudget budget(200000);
+                c = lpa->computeShortestPath(path);
+            }
+            catch (const std::bad_alloc &)
+            {
+                // the path grew beyond any bound: parent pointers form a cycle
+                path.clear();
+                ev["endless"] = 1;
+            }
             ev["cost"] = enc(c, DINF);
             json p = json::array();
             for (auto x : path)
@@ -409,6 +491,10 @@ struct DriverBase
     std::string err;
     json lastExp;
     std::string lastAct;
+    DriverBase()
+    {
+        beginHistory(3);
+    }
     void file(const std::string &kind, const std::string &why)
     {
         g_find.add(kind, why, hist);
@@ -459,9 +545,8 @@ struct SsspDriver : DriverBase
         // LBTRRT passes collectVertices=false for tree edges and true in considerEdge
         op["col"] = (++n % 4 == 0) ? 0 : 1;
         hist.push_back(op);
-        arm(hist);
+        note(op);
         json ev = real.apply(op);
-        disarm();
         if (obs && e.a != "Setup")
             judge(e, ev);
         return true;
@@ -547,14 +632,45 @@ struct LpaDriver : DriverBase
             op["t"] = op["target"];
         }
         hist.push_back(op);
-        arm(hist);
+        note(op);
         json ev = real.apply(op);
-        disarm();
         lastExp = e.exp;
         lastAct = e.a;
+        if (e.a == "Compute")
+            track(ev);
         if (obs && e.a == "Compute")
             judge(ev, "");
         return true;
+    }
+    // which kinds of search happened on the real object (vacuity): a g-value lowered = a head was
+    // expanded as overconsistent, raised = as underconsistent
+    json lastG;
+    void track(const json &ev)
+    {
+        const json &gs = ev["g"];
+        if (lastG.is_array() && lastG.size() == gs.size())
+        {
+            bool up = false, down = false;
+            for (std::size_t i = 0; i < gs.size(); ++i)
+            {
+                long long a = lastG[i], b = gs[i];
+                a = a < 0 ? (1LL << 40) : a;
+                b = b < 0 ? (1LL << 40) : b;
+                up = up || b > a;
+                down = down || b < a;
+            }
+            if (up)
+                ++g_metric["lpa_g_raised_by_a_search"];
+            if (down)
+                ++g_metric["lpa_g_lowered_by_a_search"];
+            if (up && down)
+                ++g_metric["lpa_search_raising_and_lowering"];
+        }
+        else if (gs.is_array())
+            ++g_metric["lpa_g_lowered_by_a_search"];
+        lastG = gs;
+        if (ev["cost"].get<long long>() == -1)
+            ++g_metric["lpa_search_answering_unreachable"];
     }
     void judge(const json &ev, const std::string &when)
     {
@@ -563,6 +679,9 @@ struct LpaDriver : DriverBase
         const json &p = ev["path"];
         const std::string pre = real.directed ? "lpad:compute:" : "lpa:compute:";
         ++g_metric["lpa_computes_judged"];
+        if (ev.contains("endless"))
+            return file(pre + "endless-loop" + when, "computeShortestPath does not return: following the parent pointers from the "
+                                                     "target never reaches nullptr (stopped after 200000 path elements)");
         if (got != want)
         {
             std::string k = want == -1 ? "finite-though-unreachable" :
@@ -601,9 +720,8 @@ struct LpaDriver : DriverBase
             return true;
         json op{{"e", "Compute"}};
         hist.push_back(op);
-        arm(hist);
+        note(op);
         json ev = real.apply(op);
-        disarm();
         judge(ev, "");
         return true;
     }
@@ -616,10 +734,9 @@ struct AdjDriver : DriverBase
     {
         json op = opOf(e);
         hist.push_back(op);
-        arm(hist);
+        note(op);
         // unobserved prefix steps skip the (quadratic) battery
         json ev = (e.a == "Setup" || obs) ? real.apply(op, true, nullptr) : applyQuiet(op);
-        disarm();
         if (obs && e.a != "Setup")
             judge(e, ev);
         return true;
@@ -780,8 +897,18 @@ static void replayGraph(const vt::Graph &g, vt::Report &rep, bool edges, bool pa
 {
     auto make = []() { return D(); };
     const vt::Edge *base = g.edges.data();
-    if (edges && g_shard == 0)
+    if (edges && g_nshards == 1)
         vt::walkEveryEdge<D>(g, rep, make);
+    else if (edges)
+    {
+        // vt::walkEveryEdge, this shard's share
+        for (std::size_t i = g_shard; i < g.edges.size(); i += g_nshards)
+        {
+            std::vector<int> path = g.pathTo(g.edges[i].s);
+            path.push_back((int)i);
+            vt::runScenario<D>(g, path, path.size() - 1, rep, make);
+        }
+    }
     if (pairs)
         vt::walkEveryPair<D>(g, rep, make, [&](const vt::Edge &e) { return (&e - base) % g_nshards == g_shard; });
     if (walks > 0)
@@ -827,6 +954,14 @@ static void replayGraph(const vt::Graph &g, vt::Report &rep, bool edges, bool pa
 }
 
 // ------------------------------------------------------------------ recording (impl -> spec)
+// remember the operation in flight for the watchdog
+template <class R, class... A>
+static json doOp(R &real, const json &op, A... a)
+{
+    g_now = "[" + op.dump();
+    return real.apply(op, a...);
+}
+
 struct SlotWeights
 {
     // weight = base * 2^20 + 2^slot with a slot no other live arc uses: the cost of a path
@@ -843,10 +978,10 @@ struct SlotWeights
 static void recordSssp(vt::Trace &tr, vt::Rng &rng, int ops, int maxV)
 {
     SsspReal real;
-    tr.emit(real.apply(json{{"e", "Setup"}, {"k", "sssp"}, {"n", 0}, {"s", 0}, {"t", 0}, {"h", json::array()}}));
+    tr.emit(doOp(real, json{{"e", "Setup"}, {"k", "sssp"}, {"n", 0}, {"s", 0}, {"t", 0}, {"h", json::array()}}));
     SlotWeights sw;
     std::map<std::pair<int, int>, std::vector<std::pair<int, long long>>> arcs;  // arc -> (slot, weight) of each parallel copy
-    auto addV = [&]() { tr.emit(real.apply(json{{"e", "AddVertex"}})); };
+    auto addV = [&]() { tr.emit(doOp(real, json{{"e", "AddVertex"}})); };
     addV();
     addV();
     for (int i = 0; i < ops; ++i)
@@ -867,7 +1002,7 @@ static void recordSssp(vt::Trace &tr, vt::Rng &rng, int ops, int maxV)
                     sw.freeSlots.pop_back();
                     long long c = (1 + rng.below(15)) * (1LL << 20) + (1LL << slot);
                     arcs[{u, n}].push_back({slot, c});
-                    tr.emit(real.apply(json{{"e", "AddArc"}, {"u", u}, {"v", n}, {"c", c}, {"col", 0}}));
+                    tr.emit(doOp(real, json{{"e", "AddArc"}, {"u", u}, {"v", n}, {"c", c}, {"col", 0}}));
                 }
             }
         }
@@ -881,7 +1016,7 @@ static void recordSssp(vt::Trace &tr, vt::Rng &rng, int ops, int maxV)
             {
                 // the same edge again with the same weight (LBTRRT reconsiders the tree edge)
                 long long c = it->second[0].second;
-                tr.emit(real.apply(json{{"e", "AddArc"}, {"u", u}, {"v", v}, {"c", c}, {"col", col}}));
+                tr.emit(doOp(real, json{{"e", "AddArc"}, {"u", u}, {"v", v}, {"c", c}, {"col", col}}));
                 continue;
             }
             if (sw.freeSlots.empty())
@@ -890,7 +1025,7 @@ static void recordSssp(vt::Trace &tr, vt::Rng &rng, int ops, int maxV)
             sw.freeSlots.pop_back();
             long long c = (1 + rng.below(15)) * (1LL << 20) + (1LL << slot);
             arcs[{u, v}].push_back({slot, c});
-            tr.emit(real.apply(json{{"e", "AddArc"}, {"u", u}, {"v", v}, {"c", c}, {"col", col}}));
+            tr.emit(doOp(real, json{{"e", "AddArc"}, {"u", u}, {"v", v}, {"c", c}, {"col", col}}));
         }
         else if (r < 97)
         {
@@ -926,11 +1061,11 @@ static void recordSssp(vt::Trace &tr, vt::Rng &rng, int ops, int maxV)
                     sw.freeSlots.push_back(sl.first);
                 arcs.erase(it);
             }
-            tr.emit(real.apply(json{{"e", "RemoveArc"}, {"u", u}, {"v", v}, {"col", col}}));
+            tr.emit(doOp(real, json{{"e", "RemoveArc"}, {"u", u}, {"v", v}, {"col", col}}));
         }
         else if (r < 98)
         {
-            tr.emit(real.apply(json{{"e", "Clear"}}));
+            tr.emit(doOp(real, json{{"e", "Clear"}}));
             arcs.clear();
             sw = SlotWeights();
             addV();
@@ -957,7 +1092,7 @@ static void recordLpa(vt::Trace &tr, vt::Rng &rng, int ops, int maxV, int varian
     json h = json::array();
     for (int i = 0; i < n0; ++i)
         h.push_back(hOf(i));
-    tr.emit(real.apply(json{{"e", "Setup"}, {"k", directed ? "lpad" : "lpa"}, {"n", n0}, {"s", s}, {"t", t}, {"h", h}}));
+    tr.emit(doOp(real, json{{"e", "Setup"}, {"k", directed ? "lpad" : "lpa"}, {"n", n0}, {"s", s}, {"t", t}, {"h", h}}));
     std::set<std::pair<int, int>> edges;
     std::vector<long long> lastPath;
     bool mustCompute = false;
@@ -968,7 +1103,7 @@ static void recordLpa(vt::Trace &tr, vt::Rng &rng, int ops, int maxV, int varian
         if (r < 8 && n < maxV)
         {
             pos.push_back(rng.below(9));
-            tr.emit(real.apply(json{{"e", "AddVertex"}, {"h", hOf(n)}}));
+            tr.emit(doOp(real, json{{"e", "AddVertex"}, {"h", hOf(n)}}));
         }
         else if (r < 50)
         {
@@ -977,7 +1112,7 @@ static void recordLpa(vt::Trace &tr, vt::Rng &rng, int ops, int maxV, int varian
                 continue;
             int c = std::max(1, std::abs(pos[u] - pos[v]) + (rng.below(3) ? rng.below(3) : rng.below(8)));
             edges.insert({u, v});
-            tr.emit(real.apply(json{{"e", directed ? "AddArc" : "AddEdge"}, {"u", u}, {"v", v}, {"c", c}}));
+            tr.emit(doOp(real, json{{"e", directed ? "AddArc" : "AddEdge"}, {"u", u}, {"v", v}, {"c", c}}));
         }
         else if (r < 70)
         {
@@ -1005,37 +1140,37 @@ static void recordLpa(vt::Trace &tr, vt::Rng &rng, int ops, int maxV, int varian
             edges.erase({u, v});
             if (!directed && rng.below(2))
                 std::swap(u, v);
-            tr.emit(real.apply(json{{"e", directed ? "RemoveArc" : "RemoveEdge"}, {"u", u}, {"v", v}}));
+            tr.emit(doOp(real, json{{"e", directed ? "RemoveArc" : "RemoveEdge"}, {"u", u}, {"v", v}}));
             // in the planner a removal is always followed by a search; keep that most of the time
             mustCompute = rng.below(4) != 0;
         }
         else
         {
-            json ev = real.apply(json{{"e", "Compute"}});
+            json ev = doOp(real, json{{"e", "Compute"}});
             lastPath = ev["path"].get<std::vector<long long>>();
             tr.emit(ev);
             mustCompute = false;
         }
     }
-    tr.emit(real.apply(json{{"e", "Compute"}}));
+    tr.emit(doOp(real, json{{"e", "Compute"}}));
 }
 
 static void recordAdj(vt::Trace &tr, vt::Rng &rng, int ops, int maxV)
 {
     AdjReal real;
-    tr.emit(real.apply(json{{"e", "Setup"}, {"k", "adj"}, {"n", 0}, {"s", 0}, {"t", 0}, {"h", json::array()}}));
+    tr.emit(doOp(real, json{{"e", "Setup"}, {"k", "adj"}, {"n", 0}, {"s", 0}, {"t", 0}, {"h", json::array()}}));
     std::set<std::pair<int, int>> edges;
     for (int i = 0; i < ops; ++i)
     {
         int n = real.nv;
         int r = rng.below(100);
         if (n < 2 || (r < 10 && n < maxV))
-            tr.emit(real.apply(json{{"e", "AddVertex"}}, false, &rng));
+            tr.emit(doOp(real, json{{"e", "AddVertex"}}, false, &rng));
         else if (r < 55)
         {
             int u = rng.below(n), v = rng.below(n);
             int c = rng.below(5) == 0 ? 0 : rng.below(30);
-            json ev = real.apply(json{{"e", "AdjAddEdge"}, {"u", u}, {"v", v}, {"c", c}}, false, &rng);
+            json ev = doOp(real, json{{"e", "AdjAddEdge"}, {"u", u}, {"v", v}, {"c", c}}, false, &rng);
             if (ev["ret"] == 1)
                 edges.insert({std::min(u, v), std::max(u, v)});
             tr.emit(ev);
@@ -1056,7 +1191,7 @@ static void recordAdj(vt::Trace &tr, vt::Rng &rng, int ops, int maxV)
             if (i < ops / 2 && rng.below(8))
                 continue;
             edges.erase({std::min(u, v), std::max(u, v)});
-            tr.emit(real.apply(json{{"e", "AdjRemoveEdge"}, {"u", u}, {"v", v}}, false, &rng));
+            tr.emit(doOp(real, json{{"e", "AdjRemoveEdge"}, {"u", u}, {"v", v}}, false, &rng));
         }
         else if (r < 97)
         {
@@ -1070,11 +1205,11 @@ static void recordAdj(vt::Trace &tr, vt::Rng &rng, int ops, int maxV)
                 if (rng.below(2))
                     std::swap(u, v);
             }
-            tr.emit(real.apply(json{{"e", "AdjSetWeight"}, {"u", u}, {"v", v}, {"c", rng.below(30)}}, false, &rng));
+            tr.emit(doOp(real, json{{"e", "AdjSetWeight"}, {"u", u}, {"v", v}, {"c", rng.below(30)}}, false, &rng));
         }
         else if (r < 98)
         {
-            tr.emit(real.apply(json{{"e", "Clear"}}, false, &rng));
+            tr.emit(doOp(real, json{{"e", "Clear"}}, false, &rng));
             edges.clear();
         }
     }
@@ -1128,8 +1263,7 @@ int main(int argc, char **argv)
         for (int k = 0; k < histories; ++k)
         {
             vt::Rng rng(vt::envSeed() * 7919 + k);
-            json mark{{"history", k}};
-            arm(mark);
+            arm(30);
             int mv = 3 + (k * 5) % std::max(1, maxV - 2);  // small and large graphs alternate
             if (kind == "sssp")
                 recordSssp(tr, rng, ops, mv);
@@ -1179,7 +1313,8 @@ int main(int argc, char **argv)
             if (kind == "sssp" && !op.contains("col"))
                 op["col"] = 1;
             hist.push_back(op);
-            arm(hist);
+            arm(5);
+            g_now = "[" + op.dump();
             json ev = kind == "sssp" ? rs.apply(op) : kind == "lpa" ? ru.apply(op) : kind == "lpad" ? rd.apply(op) : ra.apply(op);
             disarm();
             tr.emit(ev);
